@@ -177,6 +177,12 @@ TOKEN_LAYOUT = 'seq![("negoToken"@, AV::Octets(Seq::<u8>::empty()))]'
 A(Fn(CSSP, "read_ts_server_challenge", mod="cssp", props=RELY["read_ts_server_challenge"].split(","), body_sub=RPD,
      closures={1: dict(params="", ret="-> (r: Box<Sequence>)", spec="ensures r.fields() =~= %s" % TOKEN_LAYOUT)},
      ensures=cl("read_ts_server_challenge", "first-nego-token"),
+     # refusal justification (MS-CSSP 2.2.1 TSRequest.negoTokens): the challenge is refused for a missing token only when the TSRequest DECODED and its
+     # negoTokens list is empty (so there is no first token: ts_first_nego_token is None)
+     claims=[(r"return Err\(.*no nego token in server challenge", 1, """proof { broadcast use axiom_ts_first_nego_token;
+        let v = der_decode(ts_request_proto(), stream@);
+        assert(v is Some && v->Some_0 is Seq && v->Some_0->Seq_0.len() == 2 && v->Some_0->Seq_0[1].1 is SeqOf && v->Some_0->Seq_0[1].1->SeqOf_0.len() == 0);
+        assert(ts_first_nego_token(stream@) is None); }""", "before", "C03,C01", "refused-only-when-the-decoded-negoTokens-list-is-empty")],
      pre="proof { reveal_with_fuel(a_same_shape, 3); }",
      hints=[
          (r"parse_der_into\(", 1, "let ghost f0 = ts_request.fields();", "before"),
